@@ -23,7 +23,7 @@ DEPTH = {'quick': {'rr': 5, 'stream': 5, 'chan_req': 5, 'chan_resp': 5}, 'thorou
 
 
 def bounds(tier):
-    return {'depth': DEPTH[tier], 'roles': list(DEPTH[tier]), 'links': ['tcp', 'msg', 'quic']}
+    return {'depth': DEPTH[tier], 'roles': list(DEPTH[tier]), 'links': ['tcp', 'msg', 'quic'], 'library_sources': len(source_configs()), 'source_ops_depth': SRC_DEPTH[tier]}
 
 
 # peer elements that arrive as two fragments (F + tail): 'NCF' = complete-flagged element, 'NF' = plain element
@@ -328,6 +328,120 @@ def explore(role, flavour, depth, first, part):
         part.sample({'role': role, 'link': flavour, 'first': list(first) if first else None, 'depth': depth})
 
 
+
+# ---- the library's own publishers driving an application subscriber directly ----------------------------------------------
+SRC_OPS = (('R', 1), ('R', 2), ('R', 0x7FFFFFFF), ('A', 5), ('A', 10), ('X',))
+SRC_DEPTH = {'quick': 4, 'thorough': 5}
+
+
+def source_configs():
+    out = [('empty', 1, None, 0), ('error', 1, None, 0)]
+    for kind in ('gen', 'agen'):
+        for k in (1, 3):
+            for raise_at in (None, 0, 1, 2, 3):
+                if raise_at is not None and raise_at > k:
+                    continue
+                for delay_ms in (0, 10):
+                    out.append((kind, k, raise_at, delay_ms))
+    return out
+
+
+def make_source(kind, k, raise_at, delay_ms):
+    from datetime import timedelta
+    els = [P(b'e%d' % i) for i in range(k)]
+    delay = timedelta(milliseconds=delay_ms)
+    if kind == 'empty':
+        from rsocket.streams.empty_stream import EmptyStream
+        return EmptyStream()
+    if kind == 'error':
+        from rsocket.streams.error_stream import ErrorStream
+        return ErrorStream(RuntimeError('source fails'))
+    if kind == 'gen':
+        from rsocket.streams.stream_from_generator import StreamFromGenerator
+
+        def gen():
+            for i, e in enumerate(els):
+                if raise_at == i:
+                    raise RuntimeError('source fails')
+                yield e, (i == k - 1 and raise_at is None)
+            if raise_at == k:
+                raise RuntimeError('source fails')
+
+        return StreamFromGenerator(gen, delay_between_messages=delay)
+    from rsocket.streams.stream_from_async_generator import StreamFromAsyncGenerator
+
+    async def agen():
+        for i, e in enumerate(els):
+            if raise_at == i:
+                raise RuntimeError('source fails')
+            yield e, (i == k - 1 and raise_at is None)
+        if raise_at == k:
+            raise RuntimeError('source fails')
+
+    return StreamFromAsyncGenerator(agen, delay_between_messages=delay)
+
+
+def run_source_seq(cfg, seq):
+    """One library publisher (generator-backed, empty, failing) subscribed by a recording application subscriber; the
+    application requests, waits (virtual clock) and cancels in every order."""
+    from mc.solo import Solo
+    s = Solo('server', 'tcp')
+    try:
+        sub = RecSubscriber(s.w, s.ep, 'srcsub')
+        pub = make_source(*cfg)
+        pub.subscribe(sub)
+        s.settle()
+        for op in seq:
+            if op[0] == 'R':
+                # a subscriber that has seen its terminal signal does not ask for more (the handlers never do either: a
+                # finished stream is unregistered, so no REQUEST_N reaches its source); what the sources do when asked
+                # nevertheless is outside the property
+                if sub.subscription is not None and sub.terminal() is None:
+                    sub.subscription.request(op[1])
+                s.settle()
+            elif op[0] == 'A':
+                s.advance(op[1] / 1000.0)
+            else:
+                if sub.subscription is not None:
+                    sub.subscription.cancel()
+                    sub.mark_cancel()
+                s.settle()
+        s.advance(0.1)  # whatever is still paced out arrives
+        v = list(monitors.subscriber_grammar(sub))
+        for msg, exc, txt in s.w.loop.read_exc_log():
+            v.append(('C07.exception', 'C07.exception | source | %s' % exc, '%s %s' % (msg, txt)))
+        sig = ''.join(('n' if (x[0] == 'N' and not x[2]) else ('T' if x[0] == 'N' else x[0])) for x in sub.signals)
+        return v, sig
+    finally:
+        s.teardown()
+
+
+def explore_sources(cfg, depth, part):
+    def visit(seq):
+        v, sig = run_source_seq(cfg, seq)
+        part.evaluations += 1
+        part.traces += 1
+        part.transitions += len(seq) + 1
+        part.state(('source', cfg, sig, tuple(x for x in seq if x[0] != 'R')))
+        part.outcome(('source', sig))
+        if any(ch in sig for ch in 'CET') and sig[-1] in 'CET' and len(seq) >= 2:
+            part.nontriv(('source', cfg, tuple(seq)))
+        for rule, sg, detail in v:
+            part.violate(rule, sg + ' | source=%s%s%s' % (cfg[0], '/raises' if cfg[2] is not None else '', '/paced' if cfg[3] else ''), detail + ' ops=%s' % (seq,),
+                         {'kind': 'source', 'cfg': list(cfg), 'seq': [list(x) for x in seq]})
+        if len(seq) >= depth:
+            return
+        for op in SRC_OPS:
+            if op[0] == 'A' and (cfg[3] == 0 or (seq and seq[-1][0] == 'A')):
+                continue  # waiting matters only for paced sources
+            if op[0] == 'X' and any(x[0] == 'X' for x in seq):
+                continue
+            visit(seq + [op])
+
+    visit([])
+    part.sample({'kind': 'source', 'cfg': list(cfg), 'depth': depth}, limit=1)
+
+
 def make_units(tier):
     global FRAG_SYMS
     FRAG_SYMS = ('NCF',) if tier == 'quick' else ('NCF', 'NF')
@@ -337,12 +451,16 @@ def make_units(tier):
             units.append({'role': role, 'flavour': flavour, 'depth': depth, 'first': None, 'root_only': True, 'frag': list(FRAG_SYMS)})
             for sym in Ref(role, flavour).enabled():
                 units.append({'role': role, 'flavour': flavour, 'depth': depth, 'first': list(sym), 'frag': list(FRAG_SYMS)})
+    for cfg in source_configs():
+        units.append({'kind': 'source', 'cfg': list(cfg), 'depth': SRC_DEPTH[tier]})
     return units
 
 
 def run_unit(unit, part):
     global FRAG_SYMS
     FRAG_SYMS = tuple(unit.get('frag', ('NCF',)))
+    if unit.get('kind') == 'source':
+        return explore_sources(tuple(unit['cfg']), unit['depth'], part)
     if unit.get('root_only'):
         v, sig = run_seq(unit['role'], unit['flavour'], [])
         part.evaluations += 1
@@ -357,6 +475,15 @@ def run_unit(unit, part):
 
 def replay(rec):
     w = rec['witness']
+    if w.get('kind') == 'source':
+        v1, sig1 = run_source_seq(tuple(w['cfg']), [tuple(x) for x in w['seq']])
+        v2, sig2 = run_source_seq(tuple(w['cfg']), [tuple(x) for x in w['seq']])
+        print('source:', w['cfg'], 'operations:', w['seq'], 'signals:', sig1)
+        for v in v1:
+            print('violation:', v)
+        if repr(v1) != repr(v2) or sig1 != sig2:
+            raise RuntimeError('replay not deterministic')
+        return bool(v1)
     seq = [tuple(s) for s in w['seq']]
     v1, sig1 = run_seq(w['role'], w['flavour'], seq, w.get('zero_at'))
     v2, sig2 = run_seq(w['role'], w['flavour'], seq, w.get('zero_at'))
